@@ -28,19 +28,31 @@ Theorem C18_sync_text :
 Proof. exact sync_text_thm. Qed.
 Print Assumptions C18_sync_text.
 
-(** ---- the same for the framebuffer console: full statement, NOT proved ----
-    (listed as missing in the evidence; on the real VesaFbConsole it is what the harness monitor
-    checks with its reference painter, for every depth, pitch, font and logo).  It needs the
-    refinement of Console/Grid.v by Console/Vesa.v, which the C19 development has not finished. *)
-From FF Require Import Console.Vesa Console.VesaSpec Console.VesaProofs Tty.VtVesaSync.
+(** ---- the same for the shipped framebuffer console, down to the pixels ----
+    Composition of C18_sync_inv with the refinement of Console/Grid.v by the model of VesaFbConsole
+    (Console/VesaGridProofs.v) and its byte-level specifications (C19). *)
+From FF Require Import Console.Vesa Console.VesaSpec Console.VesaProofs Tty.VtVesaSync Tty.VtVesaProofs.
 
-Definition C18_full_sync_pixels_fb : Prop :=
+(** A terminal attached to a VesaFbConsole [c] in the geometry C19 quantifies over ([vesa_wf]: any
+    width, height, pitch >= row bytes, depth 8/15/16/24/32, colour layout, font 8..16 pixels wide,
+    logo height, 256-entry palette) whose font has a blank space glyph (true of the three shipped
+    fonts: C19_shipped_space_glyph_blank), over any framebuffer content [m0].  For every history
+    the driver model ([vesa_write]/[vesa_fill]/[vesa_scroll], bounds-checked, uint32 arithmetic)
+    executes every console call of the terminal's trace without panicking; the padding bytes between
+    pixel rows and the logo rows never change; and if the terminal is active then EVERY byte of the
+    framebuffer that is colour byte [k] of pixel (q, r) of a text cell (cx, cy) is byte [k] of the
+    packed palette colour of that pixel: the cell's foreground where the glyph of the cell's
+    character has its bit set, the cell's background elsewhere ([byte_shows]), the cell being the
+    terminal's viewport cell. *)
+Theorem C18_sync_pixels_fb :
   forall (c : vesa) (f : font) (d : depth) (m0 : fbuf) sb tab (ops : list op),
     vesa_wf c f d m0 -> tab <= 255 -> wchars c * (hchars c + sb) * 3 < two32 -> Forall op_wf ops ->
-    (forall r q, r < f_gh f -> q < f_gw f -> glyph_bit f 32 r q = false) ->     (* blank space glyph *)
+    (forall r q, r < f_gh f -> q < f_gw f -> glyph_bit f 32 r q = false) ->
     exists v0 v m,
-      attach (new_vt tab sb) (wchars c) (hchars c) vesa_defaultFg vesa_defaultBg = Ok v0 /\
-      run_ops v0 ops = Ok v /\
+      attach (new_vt tab sb) (wchars c) (hchars c) vesa_defaultFg vesa_defaultBg = Vt.Ok v0 /\
+      run_ops v0 ops = Vt.Ok v /\
       vesa_apply_calls c m0 (rev (trace v)) = Mem.Ok m /\
-      (forall i, i < flen m0 -> outside_grid c f i -> load m i = load m0 i) /\
-      (st v = tty_StateActive -> forall i, i < flen m0 -> byte_shows c f d m v i).
+      (forall i, protected c i -> load m i = load m0 i) /\
+      (st v = tty_StateActive -> forall i, byte_shows c f d m v i).
+Proof. exact sync_pixels_fb_thm. Qed.
+Print Assumptions C18_sync_pixels_fb.
